@@ -15,6 +15,7 @@ Ops == \/ \E sp \in {"R", "U"}, l \in Levels, s \in Schemes : Configure(sp, l, s
        \/ \E wm \in BOOLEAN : Build(wm) /\ Rec(<<"build", wm>>)
        \/ InitGrids /\ Rec(<<"init_grids">>)
        \/ \E m \in Mols : Reset(m) /\ Rec(<<"reset", m>>)
+       \/ MoveInPlace /\ Rec(<<"move_in_place">>)
        \/ DensityFit /\ Rec(<<"density_fit">>)
        \/ ToOtherSpin /\ Rec(<<"to_other_spin">>)
 XNext == \/ Ops /\ gap' = gap \cup {hist'[Len(hist')][1]} /\ UNCHANGED nev
